@@ -94,6 +94,13 @@ CLAIMED = {
          "graphs also depends on third-party Display/FromStr pairs and is not decided.",
          "Trusted: syn; rustc MIR; spec/c20_grammar.txt character classes; semver / gix-url / cid / fuel-tx Display-FromStr round-trips.",
          "DESIGN.md §3 C20"),
+ "C24": ("E-MIR", "other", "CFG dominance / ordering rules on the shared scheduling state (atomics, Notify, channel) in async handler bodies and the worker closure; who-may-write rule",
+         "Decides three protocol rules each of which, when violated, yields a concrete bad interleaving (lost wake-up: Notified created after the "
+         "condition check; stuck flag: is_compiling set after the request is sent; stale cancellation: retrigger flag not cleared when a request is "
+         "picked up), plus: the worker resets is_compiling and then notifies after every job, only notify_waiters is used, and the scheduling state "
+         "is written only by reviewed functions. The interleaving space as a whole is not explored (that is model checking).",
+         "Trusted: rustc MIR of async bodies; tokio Notify / crossbeam-channel contracts; SeqCst.",
+         "DESIGN.md §3 C24"),
  "C30": ("E-MIR", "other", "typestate on path values (MIR provenance: final / sibling / other) in git::fetch, dominance of all file-system effects over the single publishing rename, guard/lock dominance in <git::Pinned as Fetch>::fetch",
          "Decides the publish discipline: nothing is created or written at or under the directory whose existence means 'complete checkout'; it comes "
          "into existence only through one fs::rename from a sibling directory, dominated by every other file-system effect of the fetch; the re-use "
